@@ -24,7 +24,7 @@ REPORT_COUNTERS = ['programs', 'variants', 'comparisons', 'equal', 'equal_via_re
 
 def plan(tier, seed):
   return {'nshards': 16, 'timeout_s': 5400 if tier == 'thorough' else 1200,
-          'params': {'n_programs': 220 if tier == 'thorough' else 9, 'n_variants': 10 if tier == 'thorough' else 6}}
+          'params': {'n_programs': 50 if tier == 'thorough' else 9, 'n_variants': 10 if tier == 'thorough' else 6}}
 
 
 def features_for(i):
